@@ -255,18 +255,18 @@ theorem C20_reachable (s : Sys) (l : List Step)
       intro x m x' ms hp hx
       obtain ⟨p1, p2, p3, p4⟩ := hp
       cases handle_touch x x' m ms hx with
-      | none h => rw [h.hub, h.disp]; exact ⟨p1, p2, p3, p4⟩
-      | hub e sender funds hm hx' b t r d g =>
+      | none h _ _ => rw [h.hub, h.disp]; exact ⟨p1, p2, p3, p4⟩
+      | hub e sender funds hm _ _ hx' b t r d g =>
         have st := C20_hub_step_range _ _ _ _ _ _ _ ⟨p1, p2⟩ hx'
         rw [d]; exact ⟨st.1, st.2.1, p3, p4⟩
-      | bsei blk rw sender tm hx' h t r d g => rw [h, d]; exact ⟨p1, p2, p3, p4⟩
-      | stsei blk sender tm hx' h b r d g => rw [h, d]; exact ⟨p1, p2, p3, p4⟩
-      | reward tok dsp bal sender rm hx' h b t d g => rw [h, d]; exact ⟨p1, p2, p3, p4⟩
-      | disp env sender dm hx' h b t r g =>
+      | bsei s1 sender funds tm _ _ hx' h t r d g => rw [h, d]; exact ⟨p1, p2, p3, p4⟩
+      | stsei blk sender funds tm _ hx' h b r d g => rw [h, d]; exact ⟨p1, p2, p3, p4⟩
+      | reward s1 sender funds rm _ _ hx' h b t d g => rw [h, d]; exact ⟨p1, p2, p3, p4⟩
+      | disp env sender funds dm _ hx' h b t r g =>
         rw [h]
         exact ⟨p1, p2, C17_keeper_rate_le_one.2 _ _ _ _ _ _ _ p3 hx',
           by rw [(C20_dispatcher_fields _ _ _ _ _ _ _ hx').1]; exact p4⟩
-      | reg s1 sender rm h1 hx' h b t r d => rw [h, d]; exact ⟨p1, p2, p3, p4⟩)
+      | reg s1 sender funds rm _ h1 hx' h b t r d => rw [h, d]; exact ⟨p1, p2, p3, p4⟩)
     (by
       intro x e hp
       cases e with
@@ -278,5 +278,8 @@ theorem C20_reachable (s : Sys) (l : List Step)
 
 /-! Non-vacuity: an in-range instantiate succeeds. -/
 example : ∃ h, hubInit 1 0 30 100 D D 1 3 = .ok h := ⟨_, rfl⟩
+
+/-! Non-vacuity of `C20_reachable`: the genesis state. -/
+example : genesisSys.hub.fee ≤ D ∧ genesisSys.hub.thr ≤ D ∧ genesisSys.disp.keeperRate ≤ D := by decide
 
 end Krp
